@@ -180,6 +180,19 @@ def cases(rng, tier):
         elif f == "column":
             p.update(col=[rng.randint(0 if p["dtype"] in ("uint8", "uint64") else -3, 9) for _ in range(r)], side=rng.choice(["left", "right"]), uf=rng.choice(["subtract", "add", "less"]))
         out.append(p)
+    # column-wise any of the matrix variant over sparse matrices: non-zero stretches of later rows that END before stretches of
+    # earlier rows, all-zero columns in between (the union of the rows' intervals has to be taken in sorted order)
+    for _ in range(150 if tier == "quick" else 2000):
+        r, c = rng.randint(2, 4), rng.randint(4, 8)
+        rows = []
+        for i in range(r):
+            row = [0] * c
+            for _ in range(rng.randint(1, 2)):
+                a = rng.randrange(c); b = min(c, a + rng.randint(1, 2)); v = rng.choice([1, 2, 3])
+                row[a:b] = [v] * (b - a)
+            rows.append(row)
+        out.append({"inp": {"kind": "matrix", "rows": rows}, "cls": "2d", "f": "any0", "dtype": rng.choice(["int64", "uint8", "float64", "int32"]),
+                    "ax": rng.randint(0, 3), "thr": rng.choice([0, 0, 0, 1])})
     return out
 
 
@@ -218,7 +231,7 @@ def _build(p):
         ivs = np.array(inp["ivs"])
         rl = RunLength2dArray.from_intervals(ivs[:, 0], ivs[:, 1], inp["L"])
         if p["cls"] == "ragged":
-            if p["f"] in HYBRID_OPS and len(str(inp)) % 2 == 0:
+            if p["f"] in HYBRID_OPS and len(str(inp)) % 2 == 0 and not p.get("ell"):      # (an Ellipsis next to the rows stands for a column range)
                 # the ragged class built through the (inherited) from_intervals: for the operations that do not address columns
                 return RunLengthRaggedArray.from_intervals(ivs[:, 0], ivs[:, 1], inp["L"])
             dense = np.array(_dense(inp))
